@@ -23,12 +23,15 @@ def plan(tier, seed):
   for i, n in enumerate([7, 8, 13, 16, 32, 64, 100] if q else [7, 8, 13, 16, 31, 32, 33, 64, 65, 100, 128]):
     for cls in ("RoundRobinArbiter", "RoundRobinArbiterEn"):
       p.append({"kind": "rand", "cls": cls, "nreqs": n, "cycles": 1500 if q else 30000, "hashseed": (seed * 3 + i) % 97})
+  for n in (2, 3, 4, 5):
+    for cls in ("RoundRobinArbiter", "RoundRobinArbiterEn"):
+      p.append({"kind": "rand", "cls": cls, "nreqs": n, "cycles": 600 if q else 8000, "hashseed": (seed * 5 + n) % 97, "embedded": True})
   return p
 
 
 def thresholds(tier):
   t = {"exhaustive_sets_complete": 12, "cycles_judged": 30000, "random_cycles": 10000, "fairness_windows": 2000,
-       "resets_checked": 50, "hold_cycles_checked": 1000}
+       "resets_checked": 50, "hold_cycles_checked": 1000, "embedded_arbiters": 8}
   if tier == "thorough":
     t.update({"exhaustive_sets_complete": 16, "cycles_judged": 400000, "random_cycles": 300000})
   return t
@@ -58,11 +61,27 @@ def ref_step(n, ptr, reqs, en, has_en):
 
 # --- driving the real thing -----------------------------------------------
 
-def mk(clsname, n, pg):
+def emb_source(clsname, n, has_en):
+  """the arbiter inside a parent whose ONE update block drives the request bits one by one AND reads the grant bits: a cycle
+  at block granularity (parent block -> arbiter blocks -> parent block) without any combinational loop at signal level"""
+  L = ["from pymtl3 import *", f"from pymtl3.stdlib.basic_rtl.arbiters import {clsname}", "class Emb(Component):", "  def construct(s):",
+       f"    s.reqs = InPort({n}); s.en = InPort(); s.grants = OutPort({n})", f"    s.arb = {clsname}({n})",
+       "    @update", "    def up_switch():"]
+  for i in range(n): L.append(f"      s.arb.reqs[{i}] @= s.reqs[{i}]")
+  for i in range(n): L.append(f"      s.grants[{i}] @= s.arb.grants[{i}]")
+  if has_en: L.append("      s.arb.en @= s.en")
+  return "\n".join(L) + "\n"
+
+
+def mk(clsname, n, pg, embedded=False):
   from pymtl3 import DefaultPassGroup
   from pymtl3.passes.mamba.PassGroups import Mamba2020
   from pymtl3.stdlib.basic_rtl import arbiters
-  a = getattr(arbiters, clsname)(n)
+  if embedded:
+    from vlib import specgen as G
+    a = G.load_source(emb_source(clsname, n, clsname.endswith("En")), "c19emb").Emb()
+  else:
+    a = getattr(arbiters, clsname)(n)
   a.elaborate()
   a.apply(DefaultPassGroup() if pg == "default" else Mamba2020(print_line_trace=False))
   a.sim_reset()
@@ -80,7 +99,7 @@ def cycle(sh, a, n, has_en, ptr, reqs, en, tag, tick_only=False):
     a.sim_tick()
     sh.count("cycles_judged"); sh.count("tick_only_cycles_judged"); sh.count("evaluations")
     w = {"cls": tag, "nreqs": n, "ptr": ptr, "reqs": bin(reqs), "en": en, "driving": "inputs set, then sim_tick() only"}
-    after = int(a.priority_reg.out)
+    after = int(getattr(a, 'arb', a).priority_reg.out)
     if after != (1 << nptr):
       sh.violation("pointer-after-tick-wrong", dict(w, got=bin(after), expected=bin(1 << nptr), advance_expected=adv))
     g2 = int(a.grants); eg2 = ref_step(n, nptr, reqs, en, has_en)[0]
@@ -91,7 +110,7 @@ def cycle(sh, a, n, has_en, ptr, reqs, en, tag, tick_only=False):
     return nptr
   a.sim_eval_combinational()
   grants = int(a.grants)
-  preg = int(a.priority_reg.out)
+  preg = int(getattr(a, 'arb', a).priority_reg.out)
   eg, nptr, adv = ref_step(n, ptr, reqs, en, has_en)
   sh.count("cycles_judged"); sh.count("evaluations")
   w = {"cls": tag, "nreqs": n, "ptr": ptr, "reqs": bin(reqs), "en": en}
@@ -106,7 +125,7 @@ def cycle(sh, a, n, has_en, ptr, reqs, en, tag, tick_only=False):
   if grants != eg:
     sh.violation("grant-not-first-at-or-after-pointer", dict(w, grants=bin(grants), expected=bin(eg)))
   a.sim_tick()
-  after = int(a.priority_reg.out)
+  after = int(getattr(a, 'arb', a).priority_reg.out)
   if after != (1 << nptr):
     sh.violation("pointer-after-tick-wrong", dict(w, got=bin(after), expected=bin(1 << nptr), advance_expected=adv))
   sh.last = (grants, after != preg)
@@ -121,8 +140,8 @@ def goto(sh, a, n, has_en, target, tag):
   """from reset reach pointer == target by granting target-1"""
   a.sim_reset()
   sh.count("resets_checked")
-  if int(a.priority_reg.out) != 1:
-    sh.violation("reset-does-not-restore-priority-0", {"cls": tag, "nreqs": n, "got": bin(int(a.priority_reg.out))})
+  if int(getattr(a, 'arb', a).priority_reg.out) != 1:
+    sh.violation("reset-does-not-restore-priority-0", {"cls": tag, "nreqs": n, "got": bin(int(getattr(a, 'arb', a).priority_reg.out))})
   if target == 0:
     return 0
   return cycle(sh, a, n, has_en, 0, 1 << (target - 1), 1, tag)
@@ -151,8 +170,10 @@ def run_rand(sh):
   n, clsname = sh.params["nreqs"], sh.params["cls"]
   has_en = clsname.endswith("En")
   rng = sh.rng("rand", clsname, n)
-  a = mk(clsname, n, rng.choice(["default", "mamba"]))
-  tag = clsname
+  emb = bool(sh.params.get("embedded"))
+  a = mk(clsname, n, rng.choice(["default", "mamba"]), embedded=emb)
+  tag = clsname + ("(embedded)" if emb else "")
+  if emb: sh.count("embedded_arbiters")
   ptr = 0
   wait = [0] * n     # advancing-grant cycles an input has been waiting while continuously requesting
   mode, left = "uniform", 0
@@ -170,8 +191,8 @@ def run_rand(sh):
     if mode == "reset":
       a.sim_reset(); ptr = 0; wait = [0] * n; left = 0
       sh.count("resets_checked")
-      if int(a.priority_reg.out) != 1:
-        sh.violation("reset-does-not-restore-priority-0", {"cls": tag, "nreqs": n, "got": bin(int(a.priority_reg.out)), "after_cycles": c})
+      if int(getattr(a, 'arb', a).priority_reg.out) != 1:
+        sh.violation("reset-does-not-restore-priority-0", {"cls": tag, "nreqs": n, "got": bin(int(getattr(a, 'arb', a).priority_reg.out)), "after_cycles": c})
       continue
     if mode == "uniform": reqs = rng.getrandbits(n)
     elif mode == "all": reqs = full
